@@ -15,13 +15,17 @@ GO = "/root/go/pkg/mod/golang.org/toolchain@v0.0.1-go1.25.0.linux-amd64/bin/go"
 
 # (property, name, file, old, new [, count])
 M = []
-def mut(prop, name, file, old, new, count=1):
+def mut(prop, name, file, old, new, count=1, expect=1):
     e = dict(file=file, old=old, new=new, count=count)
     for m in M:
         if m["name"] == name:
             m["edits"].append(e)
             return
-    M.append(dict(prop=prop, name=name, edits=[e]))
+    M.append(dict(prop=prop, name=name, edits=[e], expect=expect))
+
+def harmless(prop, name, file, old, new, count=1):
+    """a property-PRESERVING change: the check must stay silent (exit 0)"""
+    mut(prop, name, file, old, new, count, expect=0)
 
 exec(open(os.path.join(os.path.dirname(os.path.abspath(__file__)), "catalogue.py")).read())
 
@@ -89,11 +93,12 @@ def main():
                 print(f"   suite FAILS for {m['name']}: {tail}")
         rc, out, dt = run_check(dst, m["prop"], tier, "mut")
         classes = [l for l in out.splitlines() if l.startswith("violation:")]
-        ok = rc == 1
-        print(f"{'CAUGHT ' if ok else 'MISSED '} {m['prop']} {m['name']}: exit {rc} ({dt:.0f}s) suite_passes={suite_ok} {classes[:3]}", flush=True)
-        if rc not in (0, 1):
+        ok = rc == m["expect"]
+        word = ("CAUGHT " if ok else "MISSED ") if m["expect"] == 1 else ("SILENT " if ok else "FALSE-ALARM ")
+        print(f"{word} {m['prop']} {m['name']}: exit {rc} ({dt:.0f}s) suite_passes={suite_ok} {classes[:3]}", flush=True)
+        if rc not in (0, 1) or (m["expect"] == 0 and rc != 0):
             print(out[-2500:])
-        results.append(dict(prop=m["prop"], name=m["name"], exit=rc, expected=1, ok=ok, suite_passes=suite_ok, classes=classes[:4]))
+        results.append(dict(prop=m["prop"], name=m["name"], exit=rc, expected=m["expect"], ok=ok, suite_passes=suite_ok, classes=classes[:4]))
     shutil.rmtree(BASE, ignore_errors=True)
     out = os.path.join(VERIF, "selftest", "last_result.json")
     json.dump(results, open(out, "w"), indent=1)
